@@ -9,15 +9,18 @@ def run(ctx):
     # finished behaviour printed as a scenario)
     # design level: single commands x every topology change (moves to known / unknown / self-naming nodes, chains, migrations, a dead
     # node), MaxMovedRedirections 0/1/2; the three defects re-introduced in the model break the expected invariant
-    cc.model(ctx, ['MC_cluster_two.cfg', 'MC_cluster_thorough.cfg'] if th else [],
-             {'MC_cluster_neg_asking.cfg': 'AskingPrecedes', 'MC_cluster_neg_moved.cfg': 'RedirectFollowed', 'MC_cluster_neg_max.cfg': 'BoundedRedirects'})
+    negs = {'MC_cluster_neg_asking.cfg': 'AskingPrecedes', 'MC_cluster_neg_moved.cfg': 'RedirectFollowed', 'MC_cluster_neg_max.cfg': 'BoundedRedirects'}
     # ParseTotal: TLC-enumerated CLUSTER SLOTS / SHARDS replies -> real decoder -> real parser
     cc.cases(ctx, 'ClusterTopo', ['Topo_slots_thorough.cfg', 'Topo_shards_thorough.cfg', 'Topo_endpoint.cfg'] if th else
              ['Topo_slots_quick.cfg', 'Topo_shards_quick.cfg', 'Topo_endpoint.cfg'], 'parse')
     # real client against the simulated cluster: TLC-generated scenarios (results compared with the model's) + random ones,
-    # every trace validated against ClusterTrace.tla
+    # every trace validated against ClusterTrace.tla.  Round 2: the redirect budget over MOVED -> retryable error -> MOVED
+    # (budget), an ASK to a node the client has never heard of followed by more commands for the slot before the lazy refresh
+    # (asknew), masters that own several slot ranges and a slot that is looked up by a refresh on pick (frag)
+    gens = ['Gen_cluster_single.cfg', 'Gen_cluster_two.cfg', 'Gen_cluster_budget.cfg', 'Gen_cluster_asknew.cfg', 'Gen_cluster_frag.cfg']
     if th:
-        cc.sim(ctx, ['Gen_cluster_single.cfg', 'Gen_cluster_two.cfg'], 0, 250, tracefiles=8)
+        cc.sim(ctx, gens, 0, 250, tracefiles=8, mc=['MC_cluster_two.cfg', 'MC_cluster_thorough.cfg'], negs=negs)
     else:
-        cc.sim(ctx, ['Gen_cluster_single.cfg', 'Gen_cluster_two.cfg'], {'Gen_cluster_single.cfg': 70, 'Gen_cluster_two.cfg': 12}, 24, focus='do,do,docache,multi', tracefiles=4)
+        cc.sim(ctx, gens, {'Gen_cluster_single.cfg': 60, 'Gen_cluster_two.cfg': 12, 'Gen_cluster_budget.cfg': 0, 'Gen_cluster_asknew.cfg': 24,
+                           'Gen_cluster_frag.cfg': 0}, 24, focus='do,do,docache,multi', tracefiles=8, negs=negs)
     ctx.exhaustive = th      # the quick tier replays a seeded sample of the TLC-generated scenarios, the thorough tier all of them
